@@ -1322,6 +1322,104 @@ def sec_tracks(run):
                       *(['repeat-in-repeat'] if text.count('repeat(') > 1 else [])])
 
 
+# ------------------------------------------------------------------------------- grid_line, by direct call
+
+GRID_LINE_POOL = ['auto', 'AUTO', 'span', 'Span', 'a', 'B', 'foo', 'inherit', 'initial', 'none', '1', '2', '-1', '-3', '0',
+                  '+2', '-0', '1.5', '2.0', '1e1', '2px', '50%', '"s"', 'f(x)', '[a]', '/', ',']
+
+
+def gtok_wire(tok):
+    from weasyprint.css.utils import get_keyword
+    kw = get_keyword(tok)
+    if kw is not None:
+        return ['id', enc(kw), enc(tok.value)]
+    if tok.type == 'number' and tok.is_integer:
+        return ['int', tok.int_value]
+    return 'other'
+
+
+def grid_line_out(value):
+    if value is None:
+        return 'invalid'
+    if value == 'auto':
+        return 'auto'
+    span, number, ident = value
+    return (f'line {"span" if span else "none"} {number if number is not None else "none"} '
+            f'{enc(ident) if ident is not None else "none"}')
+
+
+def sec_grid_line(run):
+    _, _, _, _, properties = real.mods()
+    sec = run.section('grid-line', 'properties.grid_line (grid-row-start / -end, grid-column-start / -end) by direct '
+                      'call on 0..4 tokens (auto, span, identifiers in any case, CSS-wide keywords, signed / zero / '
+                      'non-integer numbers, dimensions, strings, functions, blocks, literals): every ordered pair of the '
+                      'pool, then random longer values, vs the model; non-trivial = accepted')
+    pool = GRID_LINE_POOL
+    texts = [''] + list(pool) + [f'{a} {b}' for a in pool for b in pool]
+    for _ in range(run.n(700, 12000)):
+        texts.append(' '.join(run.rng.choice(pool) for _ in range(run.rng.choice([3, 3, 4]))))
+    for text in texts:
+        tokens = tokens_of(text)
+        try:
+            impl = grid_line_out(properties.grid_line(tokens))
+        except Exception as exc:  # noqa: BLE001
+            impl = real.fail_atom(exc)
+        sec.add(sx.line('grid-line', [gtok_wire(t) for t in tokens]), impl, meta={'name': 'grid-row-start', 'css': text},
+                nontrivial=impl != 'invalid', tags=[impl.split(' ')[0], f'n{min(len(tokens), 4)}',
+                                                    *(['span'] if impl.startswith('line span') else [])])
+
+
+def judge_grid_line(meta):
+    """css-grid-1 §8.3 on the real validator, independently of the source: auto | <custom-ident> |
+    [ <integer> && <custom-ident>? ] | [ span && [ <integer [1,∞]> || <custom-ident> ] ], components in any order."""
+    import itertools
+    _, _, _, _, properties = real.mods()
+    tokens = tokens_of(meta['css'])
+
+    def ref(toks):
+        kinds = []
+        for t in toks:
+            if t.type == 'ident':
+                kinds.append(('span',) if t.lower_value == 'span' else ('auto',) if t.lower_value == 'auto'
+                             else ('ident', t.value))
+            elif t.type == 'number' and t.int_value is not None and t.int_value != 0:
+                kinds.append(('int', t.int_value))
+            else:
+                return None
+        if kinds == [('auto',)]:
+            return 'auto'
+        if ('auto',) in kinds:
+            return None
+        spans = [k for k in kinds if k == ('span',)]
+        ints = [k[1] for k in kinds if k[0] == 'int']
+        idents = [k[1] for k in kinds if k[0] == 'ident']
+        if len(spans) > 1 or len(ints) > 1 or len(idents) > 1 or not kinds:
+            return None
+        if spans:
+            if (not ints and not idents) or (ints and ints[0] < 1):
+                return None
+        elif not ints and len(kinds) > 1:
+            return None
+        elif not ints and not idents:
+            return None
+        return ('span' if spans else None, ints[0] if ints else None, idents[0] if idents else None)
+    if any(t.type == 'ident' and t.lower_value in ('inherit', 'initial') for t in tokens):
+        return None      # known finding css-wide-keyword-as-ident
+    try:
+        got = properties.grid_line(tokens)
+    except Exception as exc:  # noqa: BLE001
+        return f'grid_line raised {type(exc).__name__} on `{meta["css"]}`'
+    want = ref(tokens)
+    if got != want:
+        return (f'`grid-row-start: {meta["css"]}` gives {got!r}, the grammar of <grid-line> gives {want!r}')
+    if 2 <= len(tokens) <= 4:
+        for perm in itertools.permutations(tokens):
+            if properties.grid_line(list(perm)) != got:
+                return (f'`grid-row-start: {meta["css"]}` gives {got!r} but the same components in the order '
+                        f'`{" ".join(real.tok_text(t) for t in perm)}` give {properties.grid_line(list(perm))!r}')
+    return None
+
+
 # ------------------------------------------------------------ gradient images: the computers, by direct call
 
 def gimage_wire(pair, q):
@@ -1962,6 +2060,18 @@ def sec_numeric(run):
             sec.add(sx.line('numeric-validator', enc(name), [ntok_wire(t) for t in tokens]), impl,
                     meta={'name': name, 'css': text}, nontrivial=impl != 'invalid',
                     tags=[impl.split(' ')[0], f'tokens{min(len(tokens), 2)}'])
+    # opacity: a clamp (exact decimal spellings only: v / 100 must be an exact float)
+    for text in ['0', '1', '0.5', '0.25', '-3', '-0.5', '2', '1.5', '1e3', '50%', '25%', '12.5%', '75%', '0%', '100%',
+                 '150%', '300%', '-5%', '2px', 'auto', 'none', '"s"', '0.5 0.5', '50% 1']:
+        toks = tokens_of(text)
+        try:
+            impl = numeric_out(properties.PROPERTIES['opacity'](toks))
+        except Exception as exc:  # noqa: BLE001
+            impl = real.fail_atom(exc)
+        if impl.startswith('int '):
+            impl = 'num ' + impl[4:]       # min(1, max(0, v)) returns the int bound itself when it clamps
+        line = sx.line('opacity', ltok_wire(toks[0])) if len(toks) == 1 else sx.line('echo', 'invalid')
+        sec.add(line, impl, meta={'name': 'opacity', 'css': text}, nontrivial=impl != 'invalid', tags=['opacity'])
     # get_resolution (the whole validator of image-resolution)
     for text in ['1dppx', '2dppx', '96dpi', '300dpi', '118dpcm', '0dppx', '-1dppx', '0dpi', '-96dpi', '2DPPX', '1dpI',
                  '1.5dppx', '1px', '2', '0', '50%', 'auto', '1x', '1e2dpi']:
@@ -2098,6 +2208,19 @@ def judge_length_flags(meta):
     return None
 
 
+def judge_opacity(css):
+    """css-color-4 §5: <alpha-value> = <number> | <percentage>, clamped to [0, 1] (never invalid for its range)."""
+    got = dict(real_funnel_pairs(f'opacity: {css}')).get('opacity')
+    toks = tokens_of(css)
+    if len(toks) != 1 or toks[0].type not in ('number', 'percentage'):
+        return f'`opacity: {css}` is accepted as {got!r}' if got is not None else None
+    v = toks[0].value / (100 if toks[0].type == 'percentage' else 1)
+    want = min(1, max(0, v))
+    if got is None or not math.isclose(got, want, abs_tol=1e-12) or not 0 <= got <= 1:
+        return f'`opacity: {css}` gives {got!r}, an alpha value is {want!r} (clamped to [0, 1])'
+    return None
+
+
 def judge_image_resolution(css):
     """css-images-3 §5.1: the <resolution> of image-resolution must be positive; a kept declaration never aborts the
     rendering of a raster image."""
@@ -2125,6 +2248,8 @@ def judge_numeric(name, css):
     import tinycss2
     from weasyprint.css.properties import Dimension
     _, _, validation, _, _ = real.mods()
+    if name == 'opacity':
+        return judge_opacity(css)
     if name == 'image-resolution':
         return judge_image_resolution(css)
     if name not in CSS_NUMERIC_SPEC:
@@ -3703,7 +3828,8 @@ def reference_substitution(tokens, env, depth):
 class C07(PropCheck):
     id = 'C07'
     extractors = (c07_tables.generate, c07_numeric.generate)
-    modules = ('WpModel.Props.C07', 'WpModel.Props.C07Tracks', 'WpModel.Props.C07Gradient', 'WpModel.Props.C07Expanders', 'WpModel.Props.C07Var', 'WpModel.Props.C07Sheet',
+    modules = ('WpModel.Props.C07', 'WpModel.Props.C07Tracks', 'WpModel.Props.C07Gradient',
+               'WpModel.Props.C07GridLine', 'WpModel.Props.C07Expanders', 'WpModel.Props.C07Var', 'WpModel.Props.C07Sheet',
                'WpModel.Props.C07Keywords', 'WpModel.Props.C07Descriptors', 'WpModel.Props.C07Numeric',
                'WpModel.Witness.C07')
     trusted_base = (
@@ -3753,6 +3879,7 @@ class C07(PropCheck):
         'length-flags': ['neg:True', 'neg:False', 'pct:True', 'pct:False', 'list:ok', 'list:invalid', 'list-n0', 'list-n1',
                          'list-n2', 'list-n3'],
         'track-size': ['auto', 'template', 'repeat-non-px'],
+        'grid-line': ['auto', 'line', 'invalid', 'span', 'n0', 'n1', 'n2', 'n3', 'n4'],
         'image-computer': ['linear', 'radial', 'other', 'background-image', 'border-image-source', 'mask-border-source'],
         'computed-units': ['nested', 'flat'] + [f'unit:{u}' for u, _ in UNIT_SPELLINGS_EXACT],
         'pending-solve': ['valid-after-invalid', 'shorthand', 'longhand', 'warned'],
@@ -3763,7 +3890,7 @@ class C07(PropCheck):
                          'rule:media-match', 'rule:media-no-match', 'rule:page-bad-selector', 'rule:page-ok',
                          'rule:page-margin-rule'],
         'keyword-validators': ['single', 'comma-list', 'ok', 'invalid'],
-        'numeric-validators': ['int', 'kw', 'num', 'dim', 'invalid', 'tokens1', 'tokens2', 'resolution',
+        'numeric-validators': ['int', 'kw', 'num', 'dim', 'invalid', 'tokens1', 'tokens2', 'resolution', 'opacity',
                                'image-resolution:ok', 'image-resolution:invalid'],
         'descriptor-funnel': ['font-face', 'counter-style', 'kept', 'all-dropped', 'font-variant:ok',
                               'font-variant:invalid'],
@@ -3794,6 +3921,7 @@ class C07(PropCheck):
         sec_computed_units(run)
         sec_tracks(run)
         sec_gradients(run)
+        sec_grid_line(run)
         sec_pending_solve(run)
         sec_sheet(run)
         sec_keywords(run)
@@ -3848,6 +3976,8 @@ class C07(PropCheck):
             return judge_pending_solve(meta)
         if section == 'computed-units':
             return judge_computed_units(meta)
+        if section == 'grid-line':
+            return judge_grid_line(meta)
         if section in ('track-size', 'image-computer'):
             return judge_tracks(meta)
         if section == 'validate-non-shorthand':
@@ -4131,7 +4261,9 @@ MANIFEST = {
             'size of a raster image is always defined; a computed grid track list holds px, %, fr only, at any depth of '
             'minmax() / fit-content() / repeat() (track_size_all_px), equal absolute lengths are the same breadth; every '
             'property whose validator takes a gradient has a gradient computer (decided on the runtime registries) and '
-            'its stops, radial centre and explicit size come out in px (gradient_property_all_px).',
+            'its stops, radial centre and explicit size come out in px (gradient_property_all_px); the components of a '
+            'grid line may come in any order (grid_line_perm) and an accepted line has the shape of the <grid-line> '
+            'grammar (grid_line_sound_partial: CSS-wide keywords excepted, witnessed).',
     'note': 'Trusted: Lean kernel, py/extract/c07_tables.py and c07_numeric.py, the harness abstraction of tokens to '
             'the answers of the real single-token / slice validators. Partial: of the 133 validator functions only the 50 '
             'keyword-only properties, the 12 numeric single-token properties, get_length, get_resolution and '
